@@ -88,12 +88,13 @@ Qed.
 Lemma ascii_chunk_no_crash v s : ascii_chunk v <> Crash s.
 Proof.
   unfold ascii_chunk, get_as_int_raw, GenGetAsInt.py_pow. simpl.
-  destruct (v <? 0); simpl; [unfold pack_B; simpl; discriminate|].
-  destruct (v <=? - 2 ^ 8); [unfold pack_B; simpl; discriminate|].
-  destruct (v >=? 2 ^ 8); [unfold pack_B; simpl; discriminate|].
-  unfold rz_mod, GenGetAsInt.py_mod. simpl.
+  change (Z.pow_pos 2 8) with 256.
+  assert (Z0 : pack_B 0 <> Crash s) by (vm_compute; discriminate).
+  destruct (v <? 0); [exact Z0|].
+  destruct (v <=? -256); [exact Z0|].
+  destruct (v >=? 256); [exact Z0|].
   assert (R : 0 <= v mod 256 < 256) by (apply Z.mod_pos_bound; lia).
-  destruct (pack_B_ok _ R) as [bs E]. change (2 ^ 8) with 256. rewrite E. discriminate.
+  destruct (pack_B_ok _ R) as [bs E]. rewrite E. discriminate.
 Qed.
 
 Lemma pack_relative_no_crash v s : pack_relative v <> Crash s.
@@ -110,7 +111,7 @@ Proof. vm_compute. reflexivity. Qed.
 Lemma align_no_crash addr count s : body_align addr count <> Crash s.
 Proof.
   unfold body_align, rz_eqb, rb_mul, rz_mod, rz_neg, GenGetAsInt.py_mod. simpl.
-  destruct (count =? 0) eqn:E; simpl; [discriminate|]. rewrite E. simpl. discriminate.
+  destruct (count =? 0); simpl; discriminate.
 Qed.
 Lemma even_no_crash addr s : body_even addr <> Crash s.
 Proof. unfold body_even, rb_if, rz_eqb, rz_mod, GenGetAsInt.py_mod. simpl. destruct (addr mod 2 =? 1); discriminate. Qed.
@@ -264,8 +265,8 @@ Lemma hex_escape_no_crash a b :
 Proof.
   intros Ha Hb. pose proof hex_pairs_ok_true as T. unfold hex_pairs_ok in T.
   rewrite forallb_forall in T. specialize (T a Ha). rewrite forallb_forall in T. specialize (T b Hb).
-  destruct (py_int [a; b] 16) as [z| | |]; try discriminate.
-  destruct (py_chr z) as [c| | |]; try discriminate. eauto.
+  destruct (py_int [a; b] 16) as [z| | |] eqn:E1; try discriminate.
+  destruct (py_chr z) as [c| | |] eqn:E2; try discriminate. exists z, c. split; [reflexivity|exact E2].
 Qed.
 
 Lemma digit_ok_of_ascii_digit base c : 10 <= base -> is_ascii_digit c = true -> digit_ok base c = true.
